@@ -283,6 +283,60 @@ def hook_check(ctx, case):
     ctx.count("hook_checked_programs")
 
 
+def same_name_classes(ctx):
+    """DISTINCT classes that share module and qualified name - a class factory called repeatedly, a class statement in a
+    loop, a class re-created by dataclasses.dataclass(slots=True) or by type(cls)(name, bases, ns), through DBC and through
+    a sub-class of DBCMeta - are each announced exactly once (the announcement carries the class object itself)."""
+    import dataclasses
+    import icontract
+    import icontract._metaclass as MC
+
+    seen = []
+    orig = MC._register_for_hypothesis
+    MC._register_for_hypothesis = lambda cls: seen.append(cls)
+    created = {}
+    try:
+        def factory(tag):
+            class Product(icontract.DBC):
+                @icontract.require(lambda x: x > 0)
+                def m(self, x):
+                    return (tag, x)
+            return Product
+
+        created["factory"] = [factory(i) for i in range(3)]
+        loop = []
+        for i in range(3):
+            class InLoop(icontract.DBC):
+                pass
+            loop.append(InLoop)
+        created["loop"] = loop
+
+        class Meta(icontract.DBCMeta):
+            pass
+
+        created["sub-metaclass"] = [Meta("SameName", (), {}) for _ in range(2)]
+
+        @icontract.invariant(lambda self: self.x >= 0)
+        class Point(icontract.DBC):
+            x: int = 0
+
+        first = Point
+        second = dataclasses.dataclass(slots=True)(Point)
+        created["dataclass-slots"] = [first, second] if second is not first else [first]
+        third = type(first)(first.__name__, first.__bases__, {k: v for k, v in vars(first).items() if k not in ("__dict__", "__weakref__")})
+        created["type-call"] = [third]
+    finally:
+        MC._register_for_hypothesis = orig
+    for what, classes in created.items():
+        counts = [sum(1 for c in seen if c is k) for k in classes]
+        ctx.case(["same-name-classes", what], True, sample={"directed": "classes sharing a qualified name: %s" % what, "announcements": counts})
+        ctx.count("directed:same-name-classes")
+        if counts != [1] * len(classes):
+            ctx.fail("hook|same-name|%s" % what, {"directed": "same-name-classes"},
+                     "%d distinct classes named %s (%s): announced %r times, expected once each" % (
+                         len(classes), classes[0].__qualname__, what, counts))
+
+
 INV_SHAPES = ("init", "noinit", "noinit-sub", "tuple-sub", "namedtuple", "slots", "dataclass", "init-sub", "prop-extended-sub",
               "prop-redefined-sub")
 CHECK_ONS = ("default", "CALL", "SETATTR", "ALL")
@@ -542,6 +596,7 @@ def interpreter_modes(ctx):
 def run_once(ctx, tier, seed):
     inv_cells(ctx)
     interpreter_modes(ctx)
+    same_name_classes(ctx)
 
 
 def run(ctx, tier, seed, shard, nshards):
@@ -568,6 +623,11 @@ def replay(ctx, case):
         before = ctx.evaluations
         inv_cells(ctx)  # the matrix is small; the failing cell is reported again with the same bucket
         ctx.evaluations = before
+        return
+    if case.get("directed") == "same-name-classes":
+        before = ctx.evaluations
+        same_name_classes(ctx)
+        ctx.evaluations = before + 1
         return
     if case.get("hook"):
         return hook_check(ctx, case)
